@@ -30,10 +30,11 @@ def init_mode(mode):
 
 
 class Config:
-    def __init__(self, name, factory, tags=()):
+    def __init__(self, name, factory, tags=(), starters=None):
         self.name = name
         self.factory = factory
         self.tags = set(tags)
+        self.starters = starters   # for BioConsert configurations: list of (name, factory) of the starting algorithms
 
     def __repr__(self):
         return self.name
@@ -54,6 +55,8 @@ def all_configs(mode=None):
     from corankco.algorithms.exact.exactalgorithmcplex import ExactAlgorithmCplex
     from corankco.algorithms.exact.exactalgorithmcplexforpaperoptim1 import ExactAlgorithmCplexForPaperOptim1
     solver = 'cbc' if mode == 'absent' else 'enum'
+    st = {'Copeland': lambda: CopelandMethod(), 'Borda': lambda: BordaCount(), 'KwikSort': lambda: KwikSortRandom(),
+          'PickAPerm': lambda: PickAPerm()}
     C = [
         Config('BioConsert', lambda: BioConsert(), {'bio', 'bio_default', 'fast'}),
         Config('BioConsert[Copeland]', lambda: BioConsert([CopelandMethod()]), {'bio', 'fast'}),
@@ -86,6 +89,10 @@ def all_configs(mode=None):
         Config('ParCons(b=2)', lambda: ParCons(bound_for_exact=2), {'parcons', solver}),
         Config('ParCons(b=3,KwikSort)', lambda: ParCons(KwikSortRandom(), 3), {'parcons', 'kwik', solver}),
     ]
+    for c in C:
+        if 'bio' in c.tags:
+            inner = c.name[c.name.index('[') + 1:-1].split(',') if '[' in c.name else (['Borda'] if c.name == 'BioCo' else [])
+            c.starters = [(x, st[x]) for x in inner]
     if mode == 'stub':
         C += [
             Config('ExactCplex(opt=True)', lambda: ExactAlgorithmCplex(optimize=True), {'exact', 'cplex', 'optimize', 'enum'}),
@@ -152,13 +159,14 @@ def run_config(cfg, dataset, scheme, one, choices=None, timeout=60):
     return status, value, ch.trace
 
 
-def explore_config(cfg, dataset, scheme, one, max_runs=3000, timeout=60):
-    """All schedules (pivot draws, optimal-vertex choices) of one configuration on one input.
-    Yields (choices, status, value)."""
+def explore_config(cfg, make_inputs, one, max_runs=3000, timeout=60):
+    """All schedules (pivot draws, optimal-vertex choices) of one configuration on one input; every
+    execution gets FRESH objects from make_inputs().  Yields (choices, status, value, dataset, scheme)."""
     stack = [[]]
     runs = 0
     while stack:
         prefix = stack.pop()
+        dataset, scheme = make_inputs()
         status, value, trace = run_config(cfg, dataset, scheme, one, prefix, timeout)
         runs += 1
         if runs > max_runs:
@@ -167,4 +175,4 @@ def explore_config(cfg, dataset, scheme, one, max_runs=3000, timeout=60):
         for i in range(len(prefix), len(trace)):
             for alt in range(trace[i][1] - 1, 0, -1):
                 stack.append(cs[:i] + [alt])
-        yield cs, status, value
+        yield cs, status, value, dataset, scheme
